@@ -54,6 +54,9 @@ func c18TreeBuild(cs c18Case) (t Tree, want map[string]string, layouts map[strin
 	for i, ix := range cs.Files {
 		name := c18Name(c18Candidates[ix], ext)
 		content := fmt.Sprintf("<F%d %s>", ix, "x")
+		if ix%2 == 1 {
+			content += "\r\nsecond line\rthird" // CR LF and a lone CR are bytes of the file like any other
+		}
 		isLayout := cs.Layout && i == 0
 		if isLayout {
 			content += `@reserve("z")`
@@ -141,6 +144,19 @@ func c18CheckTree(cs c18Case) (ok bool, sig, expected, observed string) {
 		if o.Kind != KErr {
 			return false, "unknown-name-rendered/" + feat, fmt.Sprintf("unknown name %q is reported as not found (%s)", n, desc), o.String()
 		}
+	}
+	// after renders that did not find their name, the same tree loads again in the same process, with the same names
+	tpl2, lo2 := t.loadKeep()
+	if lo2.Kind == KPanic || lo2.Kind == KHang {
+		return false, "second-load-" + lo2.Kind + "@" + lo2.Site, "the tree loads a second time in the same process (" + desc + ")", lo2.String()
+	}
+	if lo2.Kind != KOut {
+		return false, "second-load-failed/" + feat, "the tree loads a second time in the same process (" + desc + ")", lo2.String()
+	}
+	got2 := textwire.VerifProgramNames(tpl2)
+	sort.Strings(got2)
+	if strings.Join(got2, "|") != strings.Join(got, "|") {
+		return false, "second-load-other-names/" + feat, expected, fmt.Sprintf("registered %v, then %v", got, got2)
 	}
 	// evaluating a file by path equals evaluating its content as a string
 	for f, content := range t.Files {
@@ -434,7 +450,7 @@ func c18CheckCwd(cs c18Case) (ok bool, sig, expected, observed string) {
 	defer func() { must(os.Chdir(root)) }()
 	sp := c18CwdSpells[cs.Spell%len(c18CwdSpells)]
 	a := Tree{Dir: sp.dir, RealDir: filepath.Join("w1", sp.real), Ext: ".tw", Extra: []string{"w1/r", "w2/r"},
-		Files: map[string]string{"lay.tw": `<A>@reserve("w")</A>`, "home.tw": `@use("lay")@insert("w")homeA@end`, "only-a.tw": "onlyA"}}
+		Files: map[string]string{"lay.tw": `<A>@reserve("w")</A>`, "home.tw": `@use("lay")@insert("w")homeA@end`, "only-a.tw": "onlyA", "bad.tw": "x\n{{ zz }}"}}
 	b := Tree{Dir: sp.dir, RealDir: filepath.Join("w2", sp.real), Ext: ".tw",
 		Files: map[string]string{"lay.tw": `<B>@reserve("w")</B>`, "home.tw": `@use("lay")@insert("w")homeB@end`, "only-b.tw": "onlyB"}}
 	switch cs.Fault {
@@ -479,6 +495,10 @@ func c18CheckCwd(cs c18Case) (ok bool, sig, expected, observed string) {
 	}
 	if o := render(ta, "home", nil); o.Kind != KOut || o.Out != "<A>homeA</A>" {
 		return false, "cwd/first-template-changed/" + feat, expected, o.String()
+	}
+	// a fault of the first tree is still reported with the absolute path of its file (where the process stands now does not matter)
+	if o := render(ta, "bad", nil); o.Kind != KErr || o.Path != filepath.Join(root, "w1", sp.real, "bad.tw") || o.Line != 2 {
+		return false, "cwd/fault-path-after-chdir/" + feat, "an error at line 2 of " + filepath.Join(root, "w1", sp.real, "bad.tw"), o.String()
 	}
 	return true, "", expected, "ok"
 }
